@@ -7,9 +7,16 @@
 //   linear::predict and linear_t::predict (model loaded from a stream that carries the converted W, b).
 // Oracle: column statistics recomputed by the harness in long double (two passes, missing values ignored), the
 // column kinds (categorical / continuous) from the harness' own layout of the flatten matrix, and the algebraic
-// identities of the statement (round trip, advertised range / mean / deviation, missing => 0, categorical untouched,
-// prediction of the converted model on raw inputs == up-scaled prediction of the original model on scaled inputs).
-// The library is never asked for an expected value.
+// identities of the statement (round trip - also for held-out values the statistics were not computed from -,
+// advertised range / mean / deviation, missing => 0, categorical untouched, prediction of the converted model on raw
+// inputs == up-scaled prediction of the original model on scaled inputs).
+// The library is never asked for an expected value.  Modes: `stats` (statistics + scaling), `model` (W, b conversion).
+//
+// Keys: C14|finite-statistics|<field>, C14|statistics|<samples|min|max|mean|stdev|size>,
+//       C14|round-trip|<mode>|<where>, C14|missing-to-zero|<mode>|<where>, C14|categorical-rescaled|<mode>|<where>,
+//       C14|scaled-not-finite|<mode>|<where>, C14|advertised|<mode>-<statistic>|<where>,
+//       C14|model-algebra|<direct|linear_t>|inputs-<mode>|targets-<mode>
+//       with <where> in flatten|targets|feature (+ "-heldout") | iterator-flatten | iterator-targets.
 #include "common/vf.h"
 #include <algorithm>
 #include <limits>
@@ -21,7 +28,6 @@
 #include <nano/linear.h>
 #include <nano/linear/util.h>
 #include <nano/tensor/stream.h>
-#include <set>
 #include <sstream>
 
 using namespace nano;
@@ -37,6 +43,13 @@ constexpr double GUARD = 2e-8;
 
 const scaling_type MODES[4]      = {scaling_type::none, scaling_type::mean, scaling_type::minmax, scaling_type::standard};
 const char* const  MODE_NAMES[4] = {"none", "mean", "minmax", "standard"};
+
+// worst observed error in parts-per-million of the allowed one (reported as a maximum in the evidence)
+int64_t ppm(double error, double tolerance)
+{
+    const double ratio = 1e6 * error / tolerance;
+    return std::isfinite(ratio) ? static_cast<int64_t>(std::min(ratio, 1e15)) : (error == 0.0 ? 0 : static_cast<int64_t>(1e15));
+}
 
 // ---------------------------------------------------------------------------------------------------------------
 // shadow data: what the harness put into the datasource
@@ -369,10 +382,10 @@ std::vector<double> gen_values(vf::rng_t& rng, int n, std::string& label, bool i
 }
 
 // which samples of a feature are present
-std::vector<char> gen_presence(vf::rng_t& rng, int n, std::string& label, bool never_missing)
+std::vector<char> gen_presence(vf::rng_t& rng, int n, std::string& label, double p_missing_feature)
 {
     std::vector<char> p(static_cast<size_t>(n), 1);
-    const auto        r = never_missing ? 0 : rng.integer(0, 19);
+    const auto        r = !rng.chance(p_missing_feature) ? 0 : rng.integer(7, 19);
     if (r < 7)
     {
         label = "full";
@@ -408,13 +421,13 @@ std::vector<char> gen_presence(vf::rng_t& rng, int n, std::string& label, bool n
 }
 
 // kind: 0 scalar, 1 sclass, 2 mclass, 3 struct; `comps` as in sfeature_t
-sfeature_t gen_feature(vf::rng_t& rng, int n, const std::string& name, int kind, int comps, bool never_missing)
+sfeature_t gen_feature(vf::rng_t& rng, int n, const std::string& name, int kind, int comps, double p_missing_feature)
 {
     sfeature_t f;
     f.kind  = kind;
     f.comps = comps;
     f.values.resize(static_cast<size_t>(n));
-    const auto present = gen_presence(rng, n, f.presence, never_missing);
+    const auto present = gen_presence(rng, n, f.presence, p_missing_feature);
 
     if (kind == 1)
     {
@@ -490,8 +503,8 @@ sfeature_t gen_feature(vf::rng_t& rng, int n, const std::string& name, int kind,
 }
 
 // 1..20 flatten columns of mixed kinds (+ optionally a target feature, placed at a random position)
-// target_kind: -1 none, 0 continuous, 1 categorical
-shadow_t gen_shadow(vf::rng_t& rng, int target_kind)
+// target_kind: -1 none, 0 continuous, 1 categorical; p_missing_feature: probability that a feature has missing values
+shadow_t gen_shadow(vf::rng_t& rng, int target_kind, double p_missing_feature)
 {
     shadow_t sh;
     sh.samples        = static_cast<int>(rng.chance(0.12) ? rng.integer(1, 3) : rng.integer(1, 300));
@@ -536,7 +549,7 @@ shadow_t gen_shadow(vf::rng_t& rng, int target_kind)
                 comps = static_cast<int>(rng.integer(2, std::min(left, 6)));
             }
         }
-        auto f = gen_feature(rng, sh.samples, "f" + std::to_string(index++), kind, comps, false);
+        auto f = gen_feature(rng, sh.samples, "f" + std::to_string(index++), kind, comps, p_missing_feature);
         used += f.flatten_columns();
         sh.features.push_back(std::move(f));
     }
@@ -554,7 +567,7 @@ shadow_t gen_shadow(vf::rng_t& rng, int target_kind)
             comps = static_cast<int>(kind == 1 ? rng.integer(2, 5) : rng.integer(1, 5));
         }
         // NB: the datasource rejects optional targets ("the target cannot be optional"): targets are always given
-        auto       f   = gen_feature(rng, sh.samples, "target", kind, comps, true);
+        auto       f   = gen_feature(rng, sh.samples, "target", kind, comps, 0.0);
         const auto pos = static_cast<size_t>(rng.integer(0, static_cast<int64_t>(sh.features.size())));
         sh.features.insert(sh.features.begin() + static_cast<std::ptrdiff_t>(pos), std::move(f));
         sh.target = static_cast<int>(pos);
@@ -763,7 +776,8 @@ struct view_t
     std::string            where; // flatten | targets | feature | iterator-flatten | iterator-targets
     const mat_t*           raw{nullptr};
     std::vector<colinfo_t> columns;
-    std::vector<ref_t>     refs;
+    std::vector<ref_t>     refs;   // reference statistics of the data the library's statistics were computed from
+    bool                   heldout{false}; // `raw` holds other values than the ones the statistics come from
 };
 
 view_t make_view(const std::string& where, const mat_t& raw, std::vector<colinfo_t> columns)
@@ -813,8 +827,7 @@ bool check_stats(vf::ctx_t& c, const view_t& view, const scalar_stats_t& stats)
         for (int f = 0; f < 8; ++f)
         {
             const auto value = (*fields[f])(col);
-            // the (de)normalisers must also be usable: strictly positive
-            if (!std::isfinite(value) || (f >= 4 && !(value > 0.0)))
+            if (!std::isfinite(value))
             {
                 auto j = witness_column(view, static_cast<int>(col));
                 j.kv("field", names[f]).kv("got", value);
@@ -855,6 +868,7 @@ bool check_stats(vf::ctx_t& c, const view_t& view, const scalar_stats_t& stats)
         {
             bad("max", stats.m_max(col), r.max, 0.0);
         }
+        c.maxc("ppm_of_tolerance_statistics_mean", ppm(std::fabs(stats.m_mean(col) - r.mean), r.tol_mean()));
         if (!(std::fabs(stats.m_mean(col) - r.mean) <= r.tol_mean()))
         {
             bad("mean", stats.m_mean(col), r.mean, r.tol_mean());
@@ -862,6 +876,7 @@ bool check_stats(vf::ctx_t& c, const view_t& view, const scalar_stats_t& stats)
         if (r.judged_stdev())
         {
             c.count("statistics_stdev_judged");
+            c.maxc("ppm_of_tolerance_statistics_stdev", ppm(std::fabs(stats.m_stdev(col) / r.stdev - 1.0), r.tol_stdev()));
             if (!(std::fabs(stats.m_stdev(col) / r.stdev - 1.0) <= r.tol_stdev()))
             {
                 bad("stdev", stats.m_stdev(col), r.stdev, r.tol_stdev());
@@ -925,7 +940,7 @@ void check_scaled(vf::ctx_t& c, const view_t& view, int imode, const mat_t& scal
                 ok = false;
             }
         }
-        if (!ok || info.categorical || imode == 0)
+        if (!ok || info.categorical || imode == 0 || view.heldout)
         {
             continue;
         }
@@ -959,6 +974,7 @@ void check_scaled(vf::ctx_t& c, const view_t& view, int imode, const mat_t& scal
         c.count("advertised_columns_" + mode);
         if (imode == 2)
         {
+            c.maxc("ppm_of_tolerance_advertised_minmax", ppm(std::max(std::fabs(ys.min), std::fabs(ys.max - 1.0)), 1e-9));
             if (!(std::fabs(ys.min) <= 1e-9))
             {
                 bad("min", ys.min, 0.0, 1e-9);
@@ -971,6 +987,8 @@ void check_scaled(vf::ctx_t& c, const view_t& view, int imode, const mat_t& scal
         else if (imode == 1)
         {
             const double tol = 1e-9 + 4.0 * n * EPS * r.amax / r.range();
+            c.maxc("ppm_of_tolerance_advertised_mean_center", ppm(std::fabs(ys.mean), tol));
+            c.maxc("ppm_of_tolerance_advertised_mean_range", ppm(std::fabs(ys.range() - 1.0), 1e-9));
             if (!(std::fabs(ys.mean) <= tol))
             {
                 bad("mean", ys.mean, 0.0, tol);
@@ -982,8 +1000,10 @@ void check_scaled(vf::ctx_t& c, const view_t& view, int imode, const mat_t& scal
         }
         else
         {
-            const double tol = 1e-9 + 4.0 * n * EPS * r.amax / r.stdev;
-            if (!(std::fabs(ys.mean) <= tol * (1.0 + r.tol_stdev())))
+            const double tol = (1e-9 + 4.0 * n * EPS * r.amax / r.stdev) * (1.0 + r.tol_stdev());
+            c.maxc("ppm_of_tolerance_advertised_standard_center", ppm(std::fabs(ys.mean), tol));
+            c.maxc("ppm_of_tolerance_advertised_standard_stdev", ppm(std::fabs(ys.stdev - 1.0), r.tol_stdev()));
+            if (!(std::fabs(ys.mean) <= tol))
             {
                 bad("mean", ys.mean, 0.0, tol);
             }
@@ -1007,8 +1027,9 @@ void check_scaled(vf::ctx_t& c, const view_t& view, int imode, const mat_t& scal
             {
                 continue;
             }
-            c.count("round_trip_values");
+            c.count(view.heldout ? "round_trip_values_heldout" : "round_trip_values");
             const double tol = (info.categorical || imode == 0) ? 0.0 : 1e-9 * std::max({std::fabs(x), std::fabs(r.mean), r.range()});
+            c.maxc("ppm_of_tolerance_round_trip", ppm(std::fabs(z - x), tol));
             if (!(std::fabs(z - x) <= tol))
             {
                 auto j = witness_column(view, col);
@@ -1020,16 +1041,73 @@ void check_scaled(vf::ctx_t& c, const view_t& view, int imode, const mat_t& scal
     }
 }
 
+// values the statistics were NOT computed from (what a model sees at prediction time): the statement promises the
+// round trip, missing => 0 and untouched categorical columns for them as well
+mat_t make_heldout(vf::rng_t& rng, const view_t& view)
+{
+    const auto& raw = *view.raw;
+    mat_t       m(static_cast<int>(rng.integer(1, 6)), raw.cols);
+    for (int col = 0; col < raw.cols; ++col)
+    {
+        const auto& r    = view.refs[static_cast<size_t>(col)];
+        const auto& info = view.columns[static_cast<size_t>(col)];
+        for (int row = 0; row < m.rows; ++row)
+        {
+            const auto k = rng.integer(0, 9);
+            if (k == 0)
+            {
+                continue; // missing
+            }
+            if (info.categorical)
+            {
+                m(row, col) = rng.chance(0.5) ? +1.0 : -1.0;
+            }
+            else if (k < 4)
+            {
+                // around the column, a few ranges / deviations away
+                m(row, col) = r.mean + rng.uniform(-3.0, 3.0) * std::max({r.range(), 1e-3 * std::fabs(r.mean), 1e-6});
+            }
+            else if (k < 7)
+            {
+                m(row, col) = (rng.chance(0.5) ? 1.0 : -1.0) * rng.loguniform(1e-6, 1e6);
+            }
+            else if (k < 9)
+            {
+                m(row, col) = r.n > 0 ? rng.uniform(r.min, r.max) : 0.0;
+            }
+            else
+            {
+                m(row, col) = 0.0;
+            }
+        }
+    }
+    return m;
+}
+
+view_t heldout_view(const view_t& view, const mat_t& heldout)
+{
+    view_t v  = view;
+    v.raw     = &heldout;
+    v.heldout = true;
+    v.where   = view.where + "-heldout";
+    return v;
+}
+
 // scale/upscale through the 2d interface
 void check_scaling_2d(vf::ctx_t& c, const view_t& view, const scalar_stats_t& stats)
 {
+    if (!view.heldout)
+    {
+        const auto heldout = make_heldout(c.rng, view);
+        check_scaling_2d(c, heldout_view(view, heldout), stats);
+    }
     const auto& raw = *view.raw;
     for (int imode = 0; imode < 4; ++imode)
     {
         auto values = to_tensor(raw);
         stats.scale(MODES[imode], values.tensor());
         const auto scaled = to_mat(values, raw.rows, raw.cols);
-        c.count("scale_calls_2d");
+        c.count(view.heldout ? "scale_calls_2d_heldout" : "scale_calls_2d");
         check_scaled(c, view, imode, scaled,
                      [&](const mat_t& m)
                      {
@@ -1043,6 +1121,11 @@ void check_scaling_2d(vf::ctx_t& c, const view_t& view, const scalar_stats_t& st
 // scale/upscale through the 4d interface
 void check_scaling_4d(vf::ctx_t& c, const view_t& view, const scalar_stats_t& stats, const tensor3d_dims_t& dims)
 {
+    if (!view.heldout)
+    {
+        const auto heldout = make_heldout(c.rng, view);
+        check_scaling_4d(c, heldout_view(view, heldout), stats, dims);
+    }
     const auto& raw = *view.raw;
     const auto  fill = [&](const mat_t& m)
     {
@@ -1058,7 +1141,7 @@ void check_scaling_4d(vf::ctx_t& c, const view_t& view, const scalar_stats_t& st
         auto values = fill(raw);
         stats.scale(MODES[imode], values.tensor());
         const auto scaled = to_mat(values, raw.rows, raw.cols);
-        c.count("scale_calls_4d");
+        c.count(view.heldout ? "scale_calls_4d_heldout" : "scale_calls_4d");
         check_scaled(c, view, imode, scaled,
                      [&](const mat_t& m)
                      {
@@ -1106,10 +1189,10 @@ struct setup_t
 };
 
 // returns false (inconclusive) when the dataset does not deliver what the shadow holds: that is C08's subject
-bool make_setup(vf::ctx_t& c, setup_t& s, int target_kind)
+bool make_setup(vf::ctx_t& c, setup_t& s, int target_kind, double p_missing_feature)
 {
     auto& rng = c.rng;
-    s.shadow  = gen_shadow(rng, target_kind);
+    s.shadow  = gen_shadow(rng, target_kind, p_missing_feature);
     s.datasource = std::make_unique<shadow_ds_t>(s.shadow);
     s.datasource->load();
     s.threads = rng.chance(0.2) ? 2U : 1U;
@@ -1212,7 +1295,7 @@ void case_stats(vf::ctx_t& c)
     auto&      rng = c.rng;
     setup_t    s;
     const auto tr = rng.integer(0, 9);
-    if (!make_setup(c, s, tr < 4 ? -1 : tr < 8 ? 0 : 1))
+    if (!make_setup(c, s, tr < 4 ? -1 : tr < 8 ? 0 : 1, rng.chance(0.15) ? 0.0 : 0.65))
     {
         return;
     }
@@ -1442,6 +1525,7 @@ int compare_predictions(vf::ctx_t& c, const algebra_t& a, int fmode, int tmode, 
             const double tol = 1e-9 * sum;
             const double l = lhs(row, t), r = rhs(row, t);
             c.count("model_predictions_" + path);
+            c.maxc("ppm_of_tolerance_model_" + path, ppm(std::fabs(l - r), tol));
             if (!(std::fabs(l - r) <= tol))
             {
                 vf::json_t j;
@@ -1476,7 +1560,9 @@ void case_model(vf::ctx_t& c)
 {
     auto&   rng = c.rng;
     setup_t s;
-    if (!make_setup(c, s, rng.chance(0.85) ? 0 : 1))
+    // the algebra is judged on rows whose inputs are all finite: keep many of them
+    const auto mr = rng.integer(0, 9);
+    if (!make_setup(c, s, rng.chance(0.85) ? 0 : 1, mr < 4 ? 0.0 : mr < 8 ? 0.1 : 0.65))
     {
         return;
     }
@@ -1548,6 +1634,10 @@ void case_model(vf::ctx_t& c)
             c.count("model_conversions");
 
             judged = compare_predictions(c, a, fmode, tmode, "direct", cweights, cbias, scaled_mat, to_mat(lhs, raw.rows, tsize), to_mat(rhs, raw.rows, tsize));
+            if (c.violations() > 0)
+            {
+                return; // one witness per case: the other scaling pairs would mostly repeat it
+            }
         }
     }
 
